@@ -51,7 +51,7 @@ func zzNewCore(h func(c context.Context, ctx *app.RequestContext)) *zzCore {
 // seen is what a handler invocation observed.
 type zzSeen struct {
 	method, uri, body string
-	cl           int
+	cl                int
 }
 
 // ---- strict response reader (independent decoder used as oracle) ----
@@ -268,7 +268,7 @@ func zzNewServer(core *zzCore) *Server {
 
 var zzTemplates = []struct {
 	wire, method, uri, body string
-	closes              bool
+	closes                  bool
 }{
 	{"GET /a HTTP/1.1\r\nHost: h\r\n\r\n", "GET", "/a", "", false},
 	{"POST /b HTTP/1.1\r\nHost: h\r\nContent-Length: 5\r\n\r\nhello", "POST", "/b", "hello", false},
